@@ -155,7 +155,34 @@ fn do_write(mem: &dmn::Mem, rng: &mut Rng, regs: &[&Reg], how: u64) -> (u64, u64
     };
     let data = vec![0xabu8; len as usize];
     let m = mem.memory();
-    match how % 3 {
+    if how % 4 == 3 {
+        // explicit marking (a device that wrote through a raw pointer tells the bitmap afterwards):
+        // lengths that end inside the region, exactly at its end, past it, and huge ones - whatever lies
+        // beyond the end of the region is ignored, so the pages are those up to the end of the region
+        use vm_memory::bitmap::Bitmap;
+        use vm_memory::GuestMemoryRegion;
+        let off = gpa - r.gpa;
+        let to_end = r.size - off;
+        let mlen: usize = match rng.below(8) {
+            0 => 0,
+            1 => rng.range(1, to_end) as usize,
+            2 => to_end as usize,
+            3 => (to_end + 1) as usize,
+            4 => (to_end + PAGE) as usize,
+            5 => (to_end + 64 * PAGE) as usize,
+            6 => usize::MAX - off as usize,
+            _ => usize::MAX,
+        };
+        return match m.find_region(GuestAddress(gpa)) {
+            Some(reg) if reg.start_addr().0 == r.gpa => {
+                reg.bitmap().mark_dirty(off as usize, mlen);
+                let n = (mlen as u64).min(to_end);
+                (gpa, n, format!("region({:#x}).bitmap().mark_dirty(off={off:#x},len={mlen:#x})", r.gpa))
+            }
+            _ => (gpa, 0, format!("no region at {gpa:#x}")),
+        };
+    }
+    match how % 4 {
         0 => {
             let n = m.write(&data, GuestAddress(gpa)).unwrap_or(0) as u64;
             (gpa, n, format!("write(gpa={gpa:#x},len={len:#x})->{n:#x}"))
@@ -359,7 +386,7 @@ fn write_history(cfg: &Cfg, rng: &mut Rng, case: &str) {
                 trace.push("add_used".into());
             }
         } else {
-            let how = rng.below(3);
+            let how = rng.below(4);
             let (gpa, n, what) = do_write(&mem, rng, &regs, how);
             log.mark(gpa, n);
             trace.push(what);
